@@ -571,13 +571,14 @@ def cls_unsorted_node_ids(d):
 
 
 def _struct_differs(a, b, i):
-    """hystereses counted for point i of the batch summary b vs the single summary a (number, closed flags, runs, loads)"""
+    """output of the HCM stage for point i of the batch summary b vs the single summary a: hystereses (number, closed flags, runs, loads)
+    and their stresses / strains (which branch of the stress-strain path a sample was put on is an HCM decision as well)"""
     for t in ('RAM', 'RAJ'):
         if (t + '_col') not in a or (t + '_col') not in b:
             continue
         if a[t + '_n_hyst'] != b[t + '_n_hyst']:
             return True
-        for col in ('is_closed_hysteresis', 'run_index', 'loads_min', 'loads_max'):
+        for col in ('is_closed_hysteresis', 'run_index', 'loads_min', 'loads_max', 'S_a', 'S_m', 'epsilon_a'):
             x, y = a[t + '_col'][col][0], b[t + '_col'][col][i]
             if len(x) != len(y) or not all(close(u, v, 1e-12) or (math.isnan(u) and math.isnan(v)) for u, v in zip(x, y)):
                 return True
@@ -601,8 +602,8 @@ def cls_hcm_abs_tolerance(d):
     """P_RAM quantity of a batch point where the first point's loads, or the point's own, are so small that two DIFFERENT compared loads /
     load extents differ by less than (4 x) the absolute tolerance 1e-12 of the HCM's comparisons (FKMNonlinearDetector: `> load_max_seen+1e-12`,
     `< previous_load_extent-1e-12` ... on the loads of the FIRST point): the decisions taken for the batch are not the decisions of the point's
-    single assessment.  Decided by (a) the input (sub_tolerance at point 0 or i), (b) the counted hystereses of the point differ between batch
-    and single, (c) the difference vanishes when the sub-tolerance points are loaded just enough (still almost unloaded) to clear the tolerance"""
+    single assessment.  Decided by (a) the input (sub_tolerance at point 0 or i), (b) the output of the HCM stage for the point (hystereses, their
+    stresses and strains) differs between batch and single, (c) the difference vanishes when the sub-tolerance points are loaded just enough (still almost unloaded) to clear the tolerance"""
     it = d['item']
     if it['kind'] != 'batch' or not d['measure'].startswith('RAM'):
         return False
